@@ -38,7 +38,6 @@ TPos(t) == t[6]
 Core(t) == <<t[1], t[2], t[3], t[4], t[5]>>          \* a token without its position
 Tok(x, a, b, c, n) == <<x, a, b, c, n>>
 
-Pow2(n) == 2 ^ n
 Bit(v, mask) == (v \div mask) % 2 = 1                 \* mask is a power of two
 
 IsExtended(t) == TX(t) = 1
@@ -211,6 +210,8 @@ NormStep(acc, t) ==
     ELSE Append(acc, Core(t))
 NormaliseFrom(acc, toks) == SeqX!FoldLeft(NormStep, acc, toks)
 Normalise(toks) == NormaliseFrom(<<>>, toks)
+\* the normal form of a stream that arrives as a sequence of token sequences (one per call)
+NormaliseMany(tokseqs) == SeqX!FoldLeft(NormaliseFrom, <<>>, tokseqs)
 
 \* The same function by divide and conquer (whether two neighbours merge depends on those two tokens only, so the
 \* normal form of a concatenation is the two normal forms joined at the seam); TokenStreamMC checks the equality.
